@@ -702,6 +702,48 @@ fn cmd_trace(prop: &str, idx: u64) -> i32 {
     0
 }
 
+/// Offline helper: search tuples whose SYN cookie under the production key [0,0] has a given
+/// value (only used to aim directed scenarios; the oracles never trust the prediction).
+fn cmd_hunt_cookie(target_hex: &str, v6: bool) -> i32 {
+    use std::net::{IpAddr, Ipv4Addr, Ipv6Addr};
+    use std::sync::atomic::{AtomicBool, Ordering};
+    let target = u32::from_str_radix(target_hex.trim_start_matches("0x"), 16).unwrap_or(0xffff_ffff);
+    let key = [0u64, 0u64];
+    let done = Arc::new(AtomicBool::new(false));
+    let mut hs = Vec::new();
+    for w in 0..16u32 {
+        let done = done.clone();
+        hs.push(std::thread::spawn(move || {
+            let dst4 = IpAddr::V4(Ipv4Addr::new(10, 0, 0, 1));
+            let dst6 = IpAddr::V6(Ipv6Addr::new(0x2001, 0xdb8, 0, 0, 0, 0, 0, 1));
+            let mut n: u64 = 0;
+            for hi in 0..=u32::MAX {
+                if done.load(Ordering::Relaxed) {
+                    return;
+                }
+                let x = hi.wrapping_mul(16).wrapping_add(w);
+                for sport in [40000u16, 40001, 40002, 40003] {
+                    let (src, dst) = if v6 {
+                        (IpAddr::V6(Ipv6Addr::new(0x2001, 0xdb8, 0xffff, 0, 0, 0, (x >> 16) as u16, x as u16)), dst6)
+                    } else {
+                        (IpAddr::V4(Ipv4Addr::from(0xc000_0000u32 | (x & 0x0fff_ffff))), dst4)
+                    };
+                    n += 1;
+                    if directed::predict_cookie(&key, &src, &dst, sport, 80) == target {
+                        println!("cookie {:#010x}: {} : {} -> {} : 80 (worker {}, {} trials)", target, src, sport, dst, w, n);
+                        done.store(true, Ordering::Relaxed);
+                        return;
+                    }
+                }
+            }
+        }));
+    }
+    for h in hs {
+        let _ = h.join();
+    }
+    0
+}
+
 fn main() {
     let args: Vec<String> = std::env::args().collect();
     let code = match args.get(1).map(|s| s.as_str()) {
@@ -716,6 +758,7 @@ fn main() {
         Some("replay") if args.len() >= 3 => cmd_replay(&args[2]),
         Some("determinism") => cmd_determinism(args.get(2).and_then(|x| x.parse().ok()).unwrap_or(200)),
         Some("trace") if args.len() >= 4 => cmd_trace(&args[2], args[3].parse().unwrap_or(0)),
+        Some("hunt-cookie") if args.len() >= 3 => cmd_hunt_cookie(&args[2], args.get(3).map(|s| s == "v6").unwrap_or(false)),
         _ => {
             eprintln!("usage: mcsim check <PROP> [quick|thorough] | replay <file> | determinism [n] | trace <PROP> <idx>");
             2
